@@ -31,7 +31,7 @@ FINISH = dict(
         "probe/ops_acmeobj.rs (loop-back HTTP server; HttpApiError's private fields read back through its public "
         "get_type / Display / Debug), the lexical layer of Model/AcmeObj (lex, decodeStr, numVal, strictErr) that "
         "Spec/C08Obj shares with the model",
-        "modelled, not verified: reqwest/hyper (send, redirects, body reading), tokio; a body cut short "
+        "modelled, not verified: reqwest/hyper (send, redirects, body reading), tokio; a body cut short (injected since the audit: c08x, `cut_after`) "
         "(`unreadable`) and a failing JWS builder are in the model and the theorems but not injected",
     ],
     rule="fault plan = (request position in {newAccount, newOrder, authz fetch, challenge, finalize, cert, "
